@@ -422,6 +422,11 @@ func (g *Gen) execAlloc(st *State, a *ssa.Alloc) {
 		return
 	}
 	p := PtrV{RootKey: typeKey(t), Ref: r, Idx: "0", Elem: t}
+	if isScalarType(t) && cellOnlyAlloc(a) {
+		// a captured scalar variable that is only read / written (here and in its closures): its cell is not an element
+		// of any slice, so it gets a heap component of its own (same rule as for the closure's free variable)
+		p.RootKey = "cell:" + p.RootKey
+	}
 	if _, ok := t.Underlying().(*types.Struct); ok && g.unroll == 0 {
 		st.unpub[r] = true
 	}
@@ -1332,7 +1337,7 @@ func (g *Gen) anchored(st *State, line, kind string) {
 	}
 	if kind == "assert-at" {
 		for anchor, sets := range g.spec.SetAts {
-			if !strings.Contains(line, anchor) {
+			if !g.anchorIn(line, anchor) {
 				continue
 			}
 			ctx := &specCtx{g: g, st: st, old: g.entry}
@@ -1354,7 +1359,7 @@ func (g *Gen) anchored(st *State, line, kind string) {
 		return
 	}
 	for anchor, cl := range g.spec.Asserts {
-		if !strings.Contains(line, anchor) {
+		if !g.anchorIn(line, anchor) {
 			continue
 		}
 		for _, c := range cl {
@@ -1375,4 +1380,41 @@ func (g *Gen) anchored(st *State, line, kind string) {
 			g.assertUse[c]++
 		}
 	}
+}
+
+// cellOnlyAlloc: the address of this local is used only for loads, stores and closure capture by closures that
+// themselves only load / store through it.
+func cellOnlyAlloc(a *ssa.Alloc) bool {
+	refs := a.Referrers()
+	if refs == nil {
+		return false
+	}
+	for _, r := range *refs {
+		switch x := r.(type) {
+		case *ssa.UnOp:
+			if x.Op != token.MUL {
+				return false
+			}
+		case *ssa.Store:
+			if x.Addr != ssa.Value(a) || x.Val == ssa.Value(a) {
+				return false
+			}
+		case *ssa.DebugRef:
+		case *ssa.MakeClosure:
+			fn, ok := x.Fn.(*ssa.Function)
+			if !ok {
+				return false
+			}
+			for i, b := range x.Bindings {
+				if b == ssa.Value(a) {
+					if i >= len(fn.FreeVars) || !onlyLoadStore(fn.FreeVars[i]) {
+						return false
+					}
+				}
+			}
+		default:
+			return false
+		}
+	}
+	return true
 }
